@@ -73,7 +73,15 @@ def correlated_edges(cfg: CFG, use: Node):
             between = reach(cfg, [b for b, _ in c2.succ])
             if c not in between:
                 continue
-            redefined = any(n2 in between and c in reach(cfg, [n2]) and (set(node_defs(n2)) & nms) for n2 in cfg.live)
+            attrs = {x.attr for x in ast.walk(c.ast) if isinstance(x, ast.Attribute)}
+
+            def stores_attr(n2):
+                if n2.kind != "stmt" or not isinstance(n2.ast, (ast.Assign, ast.AugAssign, ast.AnnAssign)):
+                    return False
+                tg = n2.ast.targets if isinstance(n2.ast, ast.Assign) else [n2.ast.target]
+                return any(isinstance(t, ast.Attribute) and t.attr in attrs for t in tg)
+
+            redefined = any(n2 in between and c in reach(cfg, [n2]) and ((set(node_defs(n2)) & nms) or stores_attr(n2)) for n2 in cfg.live)
             if not redefined:
                 out.append((c2, "F" if l == "T" else "T"))
     return out
